@@ -98,6 +98,19 @@ def premise_calendar_ranges(P):
             bad.append(cid)
         if CalendarSystem.for_id(cid) is not cal:
             bad.append(cid + " not singleton")
+        if cal.id != cid:
+            bad.append(f"for_id({cid!r}).id == {cal.id!r}")
+    # every route to a calendar gives the SAME object as its id does, whatever was requested before (asked here in both orders)
+    from pyoda_time.calendars import IslamicEpoch, IslamicLeapYearPattern
+    pat_name = {IslamicLeapYearPattern.BASE15: "Base15", IslamicLeapYearPattern.BASE16: "Base16", IslamicLeapYearPattern.INDIAN: "Indian",
+                IslamicLeapYearPattern.HABASH_AL_HASIB: "HabashAlHasib"}
+    ep_name = {IslamicEpoch.CIVIL: "Civil", IslamicEpoch.ASTRONOMICAL: "Astronomical"}
+    combos = [(p, e) for p in pat_name for e in ep_name]
+    for p, e in combos + combos[::-1]:
+        want = f"Hijri {ep_name[e]}-{pat_name[p]}"
+        got = CalendarSystem.get_islamic_calendar(p, e)
+        if got.id != want or got is not CalendarSystem.for_id(want):
+            bad.append(f"get_islamic_calendar({pat_name[p]}, {ep_name[e]}) is {got.id!r}")
     return (not bad), (f"violations: {bad}" if bad else "all calendar year ranges inside the cache's validity range; singletons per id")
 
 
